@@ -292,7 +292,17 @@ func r17pco(c *core.Ctx) {
 	const R = "R17.pco"
 	c.Rule(R, "PCO Marshal/UnMarshal move ID(2) / length(1) / contents through the same fields in the same order; each container appended exactly once; Add* helpers' lengths match")
 	r17pcoMarshalX(c, R)
-	// UnMarshal
+	// UnMarshal: the layouts folded on the evaluator first (a wrong result there is a counterexample);
+	// then the state machine's shape, which - when the decoder is one - extends it to every input
+	decidedX, okX, whyX := r17pcoUnmarshalX(c, R)
+	if decidedX && !okX {
+		c.Fail(R, "nasConvert.PCO.UnMarshal:layouts", mustFunc(c, pNasC, "ProtocolConfigurationOptions.UnMarshal").Pos(), "PCO.UnMarshal must decode ID(2) LEN(1) CONTENTS(LEN) units into the list: %s", whyX)
+		r17pcoAddX(c, R)
+		return
+	}
+	if decidedX {
+		c.Ok(R, "nasConvert.PCO.UnMarshal:layouts", mustFunc(c, pNasC, "ProtocolConfigurationOptions.UnMarshal").Pos(), "8 unit layouts folded with symbolic IDs and contents")
+	}
 	u := mustFunc(c, pNasC, "ProtocolConfigurationOptions.UnMarshal")
 	up := core.NewPather(u)
 	// state variable: the phi compared with 0,1,2
@@ -315,7 +325,12 @@ func r17pco(c *core.Ctx) {
 		}
 	}
 	if statePhi == "" {
-		c.SoftUndecided("PCO.UnMarshal: state machine (switch on a loop-carried state) not found")
+		if decidedX {
+			c.Note("R17.pco: PCO.UnMarshal is not a state machine over a loop-carried state; it is decided for the folded layouts only")
+			r17pcoAddX(c, R)
+			return
+		}
+		c.SoftUndecided("PCO.UnMarshal: state machine (switch on a loop-carried state) not found (%s)", whyX)
 		return
 	}
 	for _, b := range u.Blocks {
